@@ -13,6 +13,7 @@ import hashlib
 import json
 import logging
 import os
+import signal
 import sys
 
 import numpy as np
@@ -92,7 +93,13 @@ def run_history(ops, variant_of, workdir, tag):
                     elif op[0] == 'enable':
                         emd.logger.enable()
                     elif op[0] == 'call':
-                        exc, dig = do_call(emd, variant_of(i), op[1], op[2], x)
+                        # watchdog: a call that does not come back is reported as exception 'CallTimeout'
+                        signal.signal(signal.SIGALRM, core._alarm)
+                        signal.setitimer(signal.ITIMER_REAL, 3)
+                        try:
+                            exc, dig = do_call(emd, variant_of(i), op[1], op[2], x)
+                        finally:
+                            signal.setitimer(signal.ITIMER_REAL, 0)
                 except Exception as e:
                     exc = 'op:' + type(e).__name__
                 res.append((observe(emd), exc, dig))
